@@ -30,7 +30,7 @@ def main():
             print('replaying %s: kind=%s %s' % (a.replay, rp.get('kind'), rp.get('theorem_or_tie')))
             print('case:', json.dumps(rp.get('case'))[:2000])
             if hasattr(mod, 'replay'):
-                rc = mod.replay(chk, rp)
+                rc = mod.replay(chk, a.replay)
                 chk.cleanup()
                 return rc
             # default: every case derives from the seed, so re-running the check with the
